@@ -188,6 +188,13 @@ fn c08_check(_ctx: &Ctx, c: &C08Case) -> Report {
   use arx_rt::Kind::*;
   match out.kind {
     Done | Quiescent => {}
+    StepBudget if out.clock >= 1_000_000_000 => {
+      // the budget went into waiting, not into spinning: a worker that wakes up on a timer
+      // (a polling design) while the scenario leaves its scheduler alone never comes to rest,
+      // which no statement forbids - inconclusive for this case
+      rep.classes.push("aborted:StepBudget(a thread keeps waking up on a timer)".into());
+      return rep;
+    }
     _ => {
       rep.fail = fail(format!("execution ended with {:?}", out.kind));
       return rep;
